@@ -1,5 +1,7 @@
 // C31 harness: the real FIX8::Timer<T> thread on a virtual clock.
-//   case  : "<t0 ns> <results> <ops>"
+//   case  : "<t0 ns> <results> <ops> [<durations>]"
+//           durations = per callback the clock time (ns) its run takes: the callback advances the virtual clock by that
+//           much before it returns ("slow callback"); comma separated, default 0
 //           results = per callback a string of T/F (the n-th run returns that; past the end: F), comma separated, "-" = empty
 //           ops     = comma separated  S<rep 0|1>:<ms>  (the k-th S uses callback k)  |  A<ns> (advance the clock)  |  C (clear)
 //                     |  W<k>:<ns>  advance the clock by <ns> with callback k set to PARK: when it runs next it does not return
@@ -60,6 +62,7 @@ static const int NCB = 64;
 struct Mon
 {
 	std::vector<std::string> res;
+	std::vector<long long> dur;
 	std::vector<unsigned> cnt;
 	std::mutex mx;
 	std::vector<std::string> trace;
@@ -79,6 +82,8 @@ struct Mon
 			std::lock_guard<std::mutex> g(mx);
 			trace.push_back(os.str());
 		}
+		if (i < (int)dur.size() && dur[i] > 0)
+			g_vnow += dur[i];		// the callback takes that long
 		if (park_cb.load() == i)
 		{
 			park_cb = -1;
@@ -118,6 +123,10 @@ static std::string run_case(const std::string& line)
 	if (rs != "-")
 		for (auto& s : split(rs, ','))
 			mon.res.push_back(s == "-" ? std::string() : s);
+	std::string durs;
+	if (is >> durs && durs != "-")
+		for (auto& d : split(durs, ','))
+			mon.dur.push_back(strtoll(d.c_str(), 0, 10));
 	g_vnow = t0;
 	std::ostringstream out;
 	{
